@@ -41,6 +41,12 @@ CHECKS = {
             "versions and event registration; differential runs: serde JSON/YAML round trips, valid() and the complete node table (all links) against Tree.build",
             "Tree.build is a hand transcription of build.rs/node_tree.rs tied by the node-by-node comparison of every link with the engine's tree on generated "
             "models; serde derive and YAML are compared on the implementation, not modelled; generated (empty) ids are only counted.", "5 C20"),
+    "C05": ("Lean 4 K1 theorems over the translated kind rule and guard table (admission sound and complete w.r.t. the property's predicate, terminal acts "
+            "reject the seven actions, checks precede writes) + K3 theorem 'serial clients: exactly one accepted' for every n and the interleaving witness; "
+            "monitors on the engine: exhaustive action x state x target matrix with before/after dumps, n rendezvoused client threads",
+            "The admission function is a transcription of Process::do_action + the arm guards whose tables are regenerated from the source; 'a rejected action "
+            "changes nothing' is decided by comparing the engine's dumps and traces, the concurrent clause by a deterministic rendezvous of real client "
+            "threads before their first write (not by a model of the OS scheduler).", "5 C05"),
 }
 
 NOT_YET = {}
